@@ -90,13 +90,13 @@ def extreme_rows():
     return list(dict.fromkeys(by_pop[:3] + by_crop[:2] + by_pop[-1:]))
 
 
-def extreme_cases(thresholds=(None,)):
+def extreme_cases(thresholds=(None,), shutoff="long_delayed_shutoff"):
     """(iso3, options): every extreme row under a scenario in which feed, biofuel, meat and resilient foods all matter"""
     nw = dict(crop_disruption="country_nuclear_winter", grasses="country_nuclear_winter", fish="nuclear_winter")
     out = []
     for iso in extreme_rows():
         for T in thresholds:
-            o = dict(BASELINE_COUNTRY, scenario="all_resilient_foods", shutoff="long_delayed_shutoff", **nw)
+            o = dict(BASELINE_COUNTRY, scenario="all_resilient_foods", shutoff=shutoff, **nw)
             if T is not None:
                 o["MINIMUM_PERCENT_FED_BEFORE_NONHUMAN_CONSUMPTION_ALLOWED"] = T
             out.append((iso, o))
